@@ -2,7 +2,7 @@
     (internal/server/message/fetch.go), statement by statement: every data
     item is recognised by SUBSTRING tests on the upper-cased item text, in
     a fixed order of handlers; each handler contributes an [out] to the
-    two-accumulator assembly of Model/Respond.v.
+    response parts of Model/Respond.v.
 
     Inputs that come from the store / from Go's MIME packages are fields of
     [fenv] (the reconstructed message, the stored flag string, the
@@ -176,8 +176,10 @@ Definition header_fields (items iu : str) (msg : str) : option out :=
   | None => None
   | Some st_ =>
     let prefixLen := if isPeek then 25 else 20 in
-    match slice_from items (Z.of_nat (st_ + prefixLen)) with
-    | None => None                                          (* Go panics *)
+    (* 182d3e8: a truncated item (no room for a field list) uses the default set *)
+    match Some (match slice_from items (Z.of_nat (st_ + prefixLen)) with
+                | Some f => f | None => [] end) with
+    | None => None
     | Some fieldsStr =>
       let req :=
         match index fieldsStr [RP] with
@@ -191,8 +193,37 @@ Definition header_fields (items iu : str) (msg : str) : option out :=
       let hl := flat_map (fun h => match assoc h m with Some v => [v] | None => [] end) req in
       let hs := join hl crlf in
       let hs' := (match hs with [] => [] | _ => hs ++ crlf end) ++ crlf in
-      Some (LitOver (S_ "BODY[HEADER.FIELDS (" ++ join req [SP] ++ S_ ")]") hs')
+      Some (Lit (S_ "BODY[HEADER.FIELDS (" ++ join req [SP] ++ S_ ")]") hs')
     end
+  end.
+
+(** partialAfter (f502b8a): the range <a.b> written directly after the first
+    of the given item names *)
+Fixpoint partial_after (iu : str) (names : list str) : option (nat * nat) :=
+  match names with
+  | [] => None
+  | name :: rest_names =>
+      match index iu (name ++ ["<"]) with
+      | None => partial_after iu rest_names
+      | Some idx =>
+          let rest := skipn (idx + length name + 1) iu in
+          match index rest [">"] with
+          | None => partial_after iu rest_names
+          | Some e =>
+              match scan_range (firstn e rest) with
+              | (Some a, Some b) => Some (a, b)
+              | _ => partial_after iu rest_names
+              end
+          end
+      end
+  end.
+
+(** label and data of BODY[HEADER] / BODY[]: cut and announced with <start> when
+    the item carries a range *)
+Definition ranged (iu : str) (peek_name name : str) (data : str) : out :=
+  match partial_after iu [peek_name; name] with
+  | Some (a, b) => Lit (name ++ ["<"] ++ dec a ++ [">"]) (clamp_slice data a b)
+  | None => Lit name data
   end.
 
 (** ---- the handlers in the order of the Go function ---- *)
@@ -202,7 +233,8 @@ Definition fetch_plan (items : str) (e : fenv) : option (list out) :=
   let iu := to_upper items in
   let has k := contains iu (S_ k) in
   let msg := e_msg e in
-  let hdrs := match hdr_end msg with Some i => firstn (i + 2) msg | None => msg end in
+  (* 06b4a58: the header section includes the blank line *)
+  let hdrs := match hdr_end msg with Some i => firstn (i + 4) msg | None => msg end in
   let body := match hdr_end msg with Some i => skipn (i + 4) msg | None => [] end in
   let env_part :=
     if has "ENVELOPE"%string then
@@ -248,14 +280,15 @@ Definition fetch_plan (items : str) (e : fenv) : option (list out) :=
    ++ hfp
    ++ opt_out (has "BODY.PEEK[TEXT]"%string || has "BODY[TEXT]"%string) (Lit (S_ "BODY[TEXT]") text_body)
    ++ opt_out ((has "BODY.PEEK[HEADER]"%string || has "BODY[HEADER]"%string)
-               && negb (has "HEADER.FIELDS"%string)) (Lit (S_ "BODY[HEADER]") hdrs)
+               && negb (has "HEADER.FIELDS"%string))
+              (ranged iu (S_ "BODY.PEEK[HEADER]") (S_ "BODY[HEADER]") hdrs)
    ++ opt_out (has "RFC822.HEADER"%string) (Lit (S_ "RFC822.HEADER") hdrs)
    ++ opt_out (has "RFC822.TEXT"%string) (Lit (S_ "RFC822.TEXT") body)
    ++ opt_out (has "BODY[]"%string || has "BODY.PEEK[]"%string || has "RFC822.PEEK"%string
                || (has "RFC822"%string && negb (has "RFC822.SIZE"%string)
                    && negb (has "RFC822.HEADER"%string) && negb (has "RFC822.TEXT"%string)
                    && negb (has "RFC822.PEEK"%string)))
-              (Lit (S_ "BODY[]") msg))
+              (ranged iu (S_ "BODY.PEEK[]") (S_ "BODY[]") msg))
   | _, _ => None
   end.
 
@@ -280,16 +313,12 @@ Definition classify_fetch (items : str) (e : fenv) : option finding :=
   match fetch_plan items e with
   | None => None
   | Some plan =>
-      match classify_plan plan with
-      | Some f => Some f
-      | None =>
-          if contains (to_upper items) (S_ "FLAGS") then
-            match classify_flags (e_flags e) with
-            | Some f => Some f
-            | None => if contains (to_upper items) (S_ "ENVELOPE") then classify_headers (e_msg e) else None
-            end
-          else if contains (to_upper items) (S_ "ENVELOPE") then classify_headers (e_msg e) else None
-      end
+      if contains (to_upper items) (S_ "FLAGS") then
+        match classify_flags (e_flags e) with
+        | Some f => Some f
+        | None => if contains (to_upper items) (S_ "ENVELOPE") then classify_headers (e_msg e) else None
+        end
+      else if contains (to_upper items) (S_ "ENVELOPE") then classify_headers (e_msg e) else None
   end.
 
 (** ---- requests as a client writes them (RFC 3501 fetch-att) ---- *)
@@ -345,6 +374,11 @@ Definition has_partial (it : fitem) : bool :=
 Definition is_fields (it : fitem) : bool :=
   match it with I_Sec _ (S_Fields _) _ => true | _ => false end.
 
+Definition sec_kind (it : fitem) : nat :=
+  match it with
+  | I_Sec _ S_All _ => 1 | I_Sec _ S_Text _ => 2 | I_Sec _ S_Header _ => 3 | _ => 0
+  end.
+
 (** request shapes with a known answer defect *)
 Definition classify_req (req : list fitem) : option finding :=
   let bodyish it := match it with
@@ -357,6 +391,8 @@ Definition classify_req (req : list fitem) : option finding :=
   else if existsb (fun it => match it with I_Sec _ S_Header _ => true | _ => false end) req
           && existsb is_fields req then Some item_suppressed
   else if Nat.ltb 1 (length (filter is_fields req)) then Some item_suppressed
+  else if existsb (fun k => Nat.ltb 1 (length (filter (fun it => Nat.eqb (sec_kind it) k) req))) [1; 2; 3]
+       then Some item_suppressed     (* the same section twice: each handler answers once *)
   else if existsb (is_simple "RFC822") req then Some rfc822_renamed
   else if existsb has_partial req then Some partial_range
   else None.
